@@ -284,4 +284,28 @@ def Out.text : Out → Option Str
   | .ok cur e => some (' ' :: (if cur then "current()/".toList else []) ++ e.render ++ [' '])
   | _ => none
 
+/-! ### validity of a survey (what `Survey.validate` enforces), decidable so that the driver reports it -/
+
+/-- element names are XML names: in particular non-empty and without `/` (survey_element.py 159-164) -/
+def GoodNames (p : List Str) : Prop := ∀ s ∈ p, '/' ∉ s ∧ s ≠ []
+
+instance (p : List Str) : Decidable (GoodNames p) := by unfold GoodNames; exact inferInstance
+
+/-- What a survey accepted by `Survey.validate` guarantees about the list of its elements' chains:
+names are XML names (non-empty, no `/`); every ancestor of an element is an element (with the kinds
+recorded in the chain); sibling names are unique, so a path belongs to one element; the survey root is
+not a repeat. -/
+structure Valid (els : List Chain) : Prop where
+  good : ∀ c ∈ els, GoodNames c.path
+  prefixClosed : ∀ c ∈ els, ∀ i, i < c.length → c.take (i + 1) ∈ els
+  uniquePath : ∀ c ∈ els, ∀ d ∈ els, c.path = d.path → c = d
+  rootNotRep : ∀ c ∈ els, Chain.isRep (c.take 1) = false
+
+instance (els : List Chain) : Decidable (Valid els) :=
+  decidable_of_iff
+    ((∀ c ∈ els, GoodNames c.path) ∧ (∀ c ∈ els, ∀ i, i < c.length → c.take (i + 1) ∈ els) ∧
+      (∀ c ∈ els, ∀ d ∈ els, c.path = d.path → c = d) ∧ (∀ c ∈ els, Chain.isRep (c.take 1) = false))
+    ⟨fun ⟨a, b, c, d⟩ => ⟨a, b, c, d⟩, fun h => ⟨h.good, h.prefixClosed, h.uniquePath, h.rootNotRep⟩⟩
+
+
 end Pyxv.Refs
